@@ -139,6 +139,46 @@ static void rwScenario(unsigned threads, int iters, uint64_t s) {
   finish();
 }
 
+// ---- S1b: PtrLock as the head of a linked stack (the way ConExtLinkedStack / the chunk pools use it): the payload of
+// a node written before it is published with unlock_and_set must be visible to whoever takes it off with
+// lock + unlock_and_set / unlock_and_clear; try_lock and the CAS helpers are used on the way
+struct PNode { PNode* next; int id; };
+static void ptrStackScenario(unsigned threads, int iters, uint64_t s) {
+  begin("lock:PtrLock-stack", threads, s);
+  galois::substrate::PtrLock<PNode> head;
+  static PNode nodes[8 * 16];
+  long taken = 0, bad = 0;
+  arm(threads, s);
+  galois::substrate::getThreadPool().run(threads, [&]() {
+    unsigned tid = galois::substrate::ThreadPool::getTID();
+    for (int i = 0; i < iters; ++i) {
+      PNode* n = &nodes[tid * 16 + i];
+      n->id = 600 + (int)tid * 16 + i;
+      PW(n->id);                                        // payload written before publication
+      if (i % 2 == 0) { head.lock(); n->next = head.getValue(); head.unlock_and_set(n); }
+      else {
+        // lock-free publication on an unlocked head (CAS only succeeds when the lock bit is clear)
+        PNode* h;
+        do { h = head.getValue(); n->next = h; YIELD(); } while (!head.CAS(h, n));
+      }
+      YIELD();
+      // take one off
+      if (i % 3 == 1) { while (!head.try_lock()) YIELD(); } else head.lock();
+      PNode* t = head.getValue();
+      if (!t) { head.unlock(); continue; }
+      if (t->next) head.unlock_and_set(t->next); else head.unlock_and_clear();
+      PR(t->id); PW(t->id);                             // the taker owns the payload now
+      if (t->id < 600) __atomic_add_fetch(&bad, 1, __ATOMIC_SEQ_CST);
+      __atomic_add_fetch(&taken, 1, __ATOMIC_SEQ_CST);
+    }
+  });
+  // drain the rest from the caller
+  while (PNode* t = head.getValue()) { head.lock(); if (t->next) head.unlock_and_set(t->next); else head.unlock_and_clear(); PR(t->id); ++taken; }
+  disarm();
+  if (bad || taken != (long)threads * iters) note("excl");
+  finish();
+}
+
 // ---- S2: barrier arrival -> departure ---------------------------------------------------------
 static void barrierScenario(const char* kind, unsigned P, int phases, uint64_t s) {
   std::unique_ptr<galois::substrate::Barrier> own;
@@ -194,6 +234,7 @@ static void regionScenario(unsigned threads, int which, bool fast, uint64_t s) {
 
 // ---- S4 / S5: lockable hand-over between iterations; worklist push -> pop ----------------------
 struct LObj : public galois::runtime::Lockable { long v = 0; };
+struct HbIndexer { unsigned operator()(int item) const { return item < 6 ? 0u : (unsigned)(item % 3) + 1; } };
 template <typename WL>
 static void forEachScenario(const char* wlname, unsigned threads, uint64_t s) {
   begin(std::string("for_each:") + wlname, threads, s);
@@ -241,6 +282,7 @@ int main(int argc, char** argv) {
       { galois::substrate::SimpleLock l; lockScenario("SimpleLock", l, t, iters, rng.next()); }
       { galois::substrate::PtrLock<int> l; lockScenario("PtrLock", l, t, iters, rng.next()); }
       { galois::substrate::PaddedLock<true> l; lockScenario("PaddedLock", l, t, iters, rng.next()); }
+      ptrStackScenario(t, iters, rng.next());
       rwScenario(t, iters, rng.next());
       for (const char* k : {"counting", "mcs", "dissemination", "topo", "simple", "system"}) barrierScenario(k, t, 2, rng.next());
       if (!ctl) {
@@ -252,6 +294,15 @@ int main(int argc, char** argv) {
       forEachScenario<W::ChunkLIFO<1>>("ChunkLIFO<1>", t, rng.next());
       forEachScenario<W::PerThreadChunkFIFO<2>>("PerThreadChunkFIFO<2>", t, rng.next());
       forEachScenario<W::FIFO<>>("FIFO", t, rng.next());
+      // one more family per repetition (rotating), so that every hand-over path of the worklists is walked
+      switch (rep % 6) {
+      case 0: forEachScenario<W::PerSocketChunkLIFO<2>>("PerSocketChunkLIFO<2>", t, rng.next()); break;
+      case 1: forEachScenario<W::OrderedByIntegerMetric<HbIndexer, W::PerSocketChunkFIFO<2>>>("OBIM", t, rng.next()); break;
+      case 2: forEachScenario<W::LocalQueue<W::PerSocketChunkFIFO<2>, W::GFIFO<>>>("LocalQueue", t, rng.next()); break;
+      case 3: forEachScenario<W::BulkSynchronous<>>("BulkSynchronous", t, rng.next()); break;
+      case 4: forEachScenario<W::PerSocketChunkBag<2>>("PerSocketChunkBag<2>", t, rng.next()); break;
+      default: forEachScenario<W::PerThreadChunkLIFO<2>>("PerThreadChunkLIFO<2>", t, rng.next()); break;
+      }
     }
   fprintf(stderr, "hb: %ld records\n", g_records);
   fclose(F);
